@@ -1080,6 +1080,16 @@ func (c *Ctx) exactInt(t *Term) (*Term, bool) {
 		if t.Op == OUIToFP && x.S.W <= 52 {
 			return c.ZExt(x, 64), true
 		}
+		// a wide operand whose known range is exactly representable
+		if t.Op == OUIToFP && x.S.W <= 64 && x.UMax < 1<<52 {
+			return c.ZExt(x, 64), true
+		}
+		if t.Op == OUIToFP && x.S.W == 64 && x.SLo >= 0 && x.SHi < 1<<52 {
+			return x, true
+		}
+		if t.Op == OSIToFP && x.S.W == 64 && x.SLo > -(1<<52) && x.SHi < 1<<52 {
+			return x, true
+		}
 	}
 	if t.Op == OConst && t.S.K == KFP && t.S.W == 64 {
 		f := fval(t)
@@ -1132,6 +1142,32 @@ func (c *Ctx) FCmp(op Op, a, b *Term) *Term {
 					return c.F
 				}
 				return c.Cmp(OSLt, fl, y) // f < y  <=>  f <= y  <=>  floor(f) < y
+			}
+		}
+	}
+	// exactly converted integer (|x| <= 2^52) vs a constant of magnitude >= 2^53
+	if !(a.IsConst() && b.IsConst()) && a.S.W == 64 {
+		huge := func(t *Term) (float64, bool) {
+			if t.Op != OConst {
+				return 0, false
+			}
+			f := fval(t)
+			return f, f == f && (f >= 1<<53 || f <= -(1<<53))
+		}
+		if _, ok := c.exactInt(a); ok {
+			if f, ok2 := huge(b); ok2 {
+				if op == OFEq {
+					return c.F
+				}
+				return c.Bool(f > 0) // x < f, x <= f
+			}
+		}
+		if _, ok := c.exactInt(b); ok {
+			if f, ok2 := huge(a); ok2 {
+				if op == OFEq {
+					return c.F
+				}
+				return c.Bool(f < 0) // f < y, f <= y
 			}
 		}
 	}
